@@ -48,9 +48,21 @@ TEMPLATES2 = {
     "vidx": [A.estmt(A.asg(A.idx(V("v3"), L(1)), V("f")))],
     "vcons": [A.estmt(A.asg(V("v4"), A.cons(A.vec("float", 4), [V("v3"), A.lit_f(1, 0)])))],
     "vuse": [A.estmt(A.asg(V("v4"), A.cons(A.vec("float", 4), [A.lit_f(1, 1), B("*", V("v3"), A.lit_f(2, 0))])))],
+    # a call with literal arguments only (no variable access between a store and a load around it) to a function that writes the global
+    "gcall": [A.estmt(A.call("bump", [L(10)]))],
+    "gst2": [A.estmt(A.asg(V("g"), V("y")))],
+    "gld2": [A.estmt(A.asg(V("x"), V("g")))],
+    "gret": [A.estmt(A.asg(V("y"), B("+", A.call("bump", [L(10)]), V("g"))))],
+    # explicit casts of literals (constant folding of casts): negative and fractional literals to int / uint / float
+    "ucast": [A.estmt(A.asg(V("y"), B("+", V("y"), A.cons(A.UINT, [A.lit_i(-3)]))))],
+    "ucastf": [A.estmt(A.asg(V("y"), B("+", V("y"), A.cons(A.UINT, [A.lit_f(5, 1)]))))],
+    "icast": [A.estmt(A.asg(V("y"), B("+", V("y"), A.cons(INT, [A.lit_i(-3)]))))],
+    "icastf": [A.estmt(A.asg(V("y"), B("+", V("y"), A.cons(INT, [A.lit_f(7, 1)]))))],
+    "fcast": [A.estmt(A.asg(V("f"), B("+", V("f"), A.cons(FLOAT, [A.lit_i(-3)]))))],
 }
 
-GROUPS2 = [("acp", "ust", "tst", "scp", "s2st"), ("blk1", "blk2", "blk3", "blk4", "shadow"), ("vset", "vidx", "vcons", "vuse")]
+GROUPS2 = [("acp", "ust", "tst", "scp", "s2st"), ("blk1", "blk2", "blk3", "blk4", "shadow"), ("vset", "vidx", "vcons", "vuse"),
+           ("gcall", "gst2", "gld2", "gret"), ("ucast", "ucastf", "icast", "icastf", "fcast")]
 
 # longer copy chains (every statement reads the variable the previous one wrote), included at every length bound
 EXTRA = [("st", "ld", "gst", "gld"), ("st", "ld", "gst", "gld", "ld"), ("st", "ld", "gst", "gld", "ld", "gst", "gld", "if"),
@@ -61,6 +73,7 @@ def programs(maxlen):
     names = list(TEMPLATES)
     out = []
     idf = A.func("id", [("q", INT)], INT, A.block([A.estmt(A.asg(V("q"), B("+", V("q"), L(1)))), A.ret(V("q"))]))
+    bumpf = A.func("bump", [("k", INT)], INT, A.block([A.estmt(A.asg(V("g"), B("+", V("g"), V("k")))), A.ret(V("g"))]))
     for n in range(1, maxlen + 1):
         # second alphabet: all sequences of length <= 2 (with st / ld), and of length 3 within each group of related templates
         if n <= 2:
@@ -81,7 +94,7 @@ def programs(maxlen):
                 body.append(A.estmt(A.asg(V("f"), B("+", B("+", V("f"), A.swz(V("v4"), [0])), B("+", B("*", A.swz(V("v4"), [2]), L(10)), B("*", A.swz(V("v4"), [3]), L(100)))))))
                 body.append(A.estmt(A.asg(V("y"), B("+", B("*", V("y"), L(10)), B("+", B("+", A.idx(V("u"), L(0)), A.mem(V("s2"), "a")), B("+", A.mem(V("s"), "a"), B("*", B(">", V("f"), L(40)), L(5))))))))
             body.append(A.ret(B("+", B("*", V("x"), L(100)), B("+", V("y"), A.idx(V("t"), L(0))))))
-            prog = A.prog([("g", INT)], [idf, A.func("f", [("a", INT)], INT, A.block(body), True)], [S0])
+            prog = A.prog([("g", INT)], [idf] + ([bumpf] if any(nm in ("gcall", "gret") for nm in seq) else []) + [A.func("f", [("a", INT)], INT, A.block(body), True)], [S0])
             out.append(("-".join(seq), prog))
     return out
 
